@@ -20,7 +20,7 @@ from sqllineage import SQLPARSE_DIALECT
 from sqllineage.core.models import Column, Schema, SubQuery, Table
 from sqllineage.core.parser.sqlparse.utils import get_parameters, is_subquery
 from sqllineage.utils.entities import ColumnQualifierTuple
-from sqllineage.utils.helpers import escape_identifier_name
+from sqllineage.utils.helpers import EscapedIdentifier, escape_identifier_name
 
 
 class SqlParseTable(Table):
@@ -36,11 +36,13 @@ class SqlParseTable(Table):
         real_name = table._get_first_name(dot_idx, real_name=True)
         # rewrite identifier's get_parent_name accordingly
         parent_name = (
-            "".join(
-                [
-                    escape_identifier_name(token.value)
-                    for token in table.tokens[:dot_idx]
-                ]
+            EscapedIdentifier(
+                "".join(
+                    [
+                        escape_identifier_name(token.value)
+                        for token in table.tokens[:dot_idx]
+                    ]
+                )
             )
             if dot_idx
             else None
